@@ -208,6 +208,11 @@ def parseType : List Nat → Option FType × List Nat
   | 37 :: r => (some .percentage, r)
   | t => (none, t)
 
+/-- `width.is_some_and(|w| w > i32::MAX as usize)` -/
+def widthTooBig : Option Nat → Bool
+  | some w => decide (w > i32Max)
+  | none => false
+
 /-- `FormatSpec::parse` -/
 def parseSpec (text : List Nat) : Except Err FormatSpec :=
   -- `let conversion = None;` (fix e5c4721: a conversion belongs to the replacement field)
@@ -220,7 +225,7 @@ def parseSpec (text : List Nat) : Except Err FormatSpec :=
   | .error e => .error e
   | .ok (width, text) =>
     -- fix b59d482: the padding arithmetic is done in `i32`
-    if (match width with | some w => decide (w > i32Max) | none => false) then .error .decimalDigitsTooMany else
+    if widthTooBig width then .error .decimalDigitsTooMany else
     let (grouping, text) := parseGrouping text
     match parsePrecision text with
     | .error e => .error e
@@ -265,11 +270,15 @@ def separateInteger (s : List Nat) (inter : Int) (sep : Nat) (dispDigitCnt : Int
   else
     insertSeparator s inter sep ((magnitudeLen - 1) / inter)
 
+/-- `magnitude_str.split_at(int_len)`: all of the text for interval 4, else the leading digits -/
+def splitIntPart (inter : Int) (s : List Nat) : List Nat × List Nat :=
+  if inter = 4 then (s, []) else spanDigits s
+
 /-- `add_magnitude_separators_for_char` (fix a6de50b): only the leading integer digits are grouped —
     all of the text for interval 4 (binary/octal/hex), otherwise up to the first non-digit; a text
     without leading digits (`inf`, `nan`) is zero-padded without separators.  The text is ASCII. -/
 def addSepForChar (s : List Nat) (inter : Int) (sep : Nat) (dispDigitCnt : Int) : Option (List Nat) :=
-  let (intPart, rest) := if inter = 4 then (s, []) else spanDigits s
+  let (intPart, rest) := splitIntPart inter s
   let intDigitCnt := dispDigitCnt - (rest.length : Int)
   let r : Option (List Nat) :=
     if intPart.isEmpty then some (List.replicate (max intDigitCnt 0).toNat 48)
@@ -501,6 +510,11 @@ def formatInt (spec : FormatSpec) (num : Int) : Res (List Nat) :=
       -- `AsciiStr::char_len` counts characters (fix b3fed62)
       Res.ofOption (formatSignAndAlign spec mag mag.length signPrefix .right)
 
+/-- `s.chars().take(precision).collect()` -/
+def truncateChars : Option Nat → List Nat → List Nat
+  | some p, s => s.take p
+  | none, s => s
+
 /-- `format_string` for a Python `str` (fix 19885fd: sign and `#` rejected, precision counts
     characters and is applied before padding) -/
 def formatString (spec : FormatSpec) (s : List Nat) : Res (List Nat) :=
@@ -512,9 +526,7 @@ def formatString (spec : FormatSpec) (s : List Nat) : Res (List Nat) :=
       if spec.sign.isSome then .err .notAllowed
       else if spec.alt then .err .notAllowed
       else
-        let truncated := match spec.precision with
-          | some p => s.take p
-          | none => s
+        let truncated := truncateChars spec.precision s
         Res.ofOption (formatSignAndAlign spec truncated truncated.length [] .left)
     | _ => .err .unknownFormatCode
 
